@@ -47,6 +47,18 @@ def c01(a):
         c.add_mc(r)
         if r["ok"] and r["distinct"] != 7304484:
             raise ToolError(f"CalendarWalk visited {r['distinct']} states, expected 7304484")
+        # Calendar.tla checks itself against Python's datetime / calendar before it judges jiff
+        import subprocess, sys
+        wd = os.path.join(workdir("C01", False), "pyoracle")
+        os.makedirs(wd, exist_ok=True)
+        trace = os.path.join(wd, "python.ndjson")
+        subprocess.run([sys.executable, os.path.join(VERIF, "lib", "py_calendar_oracle.py"), trace,
+                        str(12000 if a.tier == "quick" else 400000), str(a.seed)], check=True)
+        pres, mism = tlc_trace("Trace_C01.tla", [trace], "C01")
+        if mism:
+            raise ToolError(f"Calendar.tla disagrees with Python's calendar on {len(mism)} dates, e.g. {(mism[0][3] or {}).get('getters')}: {mism[0][2]}")
+        nn = sum(1 for _ in open(trace))
+        c.add_summary({"stem": "python", "events": nn, "files": [trace], "classes": {"python-oracle": nn}, "distinct_nontrivial": 0, "samples": {}})
     drive_and_validate(c, a, binary, "c01", "Trace_C01.tla")
     c.exhaustive = a.tier == "thorough" and not a.replay
     c.rule = ("Engine C: all 7,304,484 states of the calendar successor machine, each checked against every "
